@@ -259,6 +259,34 @@ func coincidenceUnit() harness.Unit {
 				exchange(c, fmt.Sprintf("own t = d + x~ r equals %s (r=%s), as A", tv.String()[:1], keys[rk].Name), 16, id, id, own, self, rPeer, rSelf)
 				exchange(c, fmt.Sprintf("own t = d + x~ r equals %s (r=%s), as B", tv.String()[:1], keys[rk].Name), 16, id, id, self, own, rSelf, rPeer)
 			}
+			// own t = 0: d = -(x~ r); then V = [h t]U is the point at infinity whatever the peer sent and
+			// the standard prescribes failure (A7 / B6) - in both roles, for several key lengths
+			d0 := new(big.Int).Mul(xb, r)
+			d0.Mod(d0.Neg(d0), n)
+			if d0.Sign() > 0 && d0.Cmp(new(big.Int).Sub(n, big.NewInt(1))) < 0 {
+				own0 := mkParty(d0)
+				for _, kl := range []int{1, 16, 100} {
+					for _, asA := range []bool{true, false} {
+						what := fmt.Sprintf("own t = d + x~ r = 0 (r=%s), as initiator=%v, klen=%d", keys[rk].Name, asA, kl)
+						c.Add("evaluations", 1)
+						c.DistinctS("nontrivial", what)
+						var k []byte
+						var err error
+						if c.Guard("kx-panic:own-t-zero", what, nil, func() {
+							if asA {
+								k, _, _, err = sm2.KeyExchangeA(kl, id, id, libKey(own0.d, own0.p), &libKey(self.d, self.p).PublicKey, libKey(rPeer.d, rPeer.p), &libKey(rSelf.d, rSelf.p).PublicKey)
+							} else {
+								k, _, _, err = sm2.KeyExchangeB(kl, id, id, libKey(own0.d, own0.p), &libKey(self.d, self.p).PublicKey, libKey(rPeer.d, rPeer.p), &libKey(rSelf.d, rSelf.p).PublicKey)
+							}
+						}) {
+							continue
+						}
+						if err == nil {
+							c.Violate("kx-accepts-V-infinite:own-t-zero", fmt.Sprintf("%s: the shared point is infinite, the library returned key %x instead of an error", what, k), nil, nil)
+						}
+					}
+				}
+			}
 		}
 	}}
 }
